@@ -24,20 +24,28 @@ type FullObs struct {
 	Fields  []string            `json:"fields"`
 }
 
-func idVer(r *bluge.Reader, number uint64) (string, error) {
-	d, err := loadDoc(r, number)
-	if err != nil {
-		return "", err
-	}
-	return d.ID + "#" + d.Ver, nil
-}
-
-// ObserveFull performs the complete observation of a reader.
-func ObserveFull(r *bluge.Reader, ids []string) (*FullObs, error) {
+// ObserveFull performs the complete observation of a reader.  noStored: never load stored
+// fields (ids and versions from sort keys; see Idx.NoStored).
+func ObserveFull(r *bluge.Reader, ids []string, noStored bool) (*FullObs, error) {
 	fo := &FullObs{Queries: map[string][]string{}}
 	var err error
-	if fo.Obs, err = Observe(r, ids); err != nil {
+	if noStored {
+		fo.Obs, err = ObserveNoStored(r, ids)
+	} else {
+		fo.Obs, err = Observe(r, ids)
+	}
+	if err != nil {
 		return nil, err
+	}
+	idVer := func(r *bluge.Reader, number uint64) (string, error) {
+		if noStored {
+			return fmt.Sprintf("doc%d", number), nil // doc numbers are stable for one reader
+		}
+		d, err := loadDoc(r, number)
+		if err != nil {
+			return "", err
+		}
+		return d.ID + "#" + d.Ver, nil
 	}
 	ctx := context.Background()
 	// document values through aggregations
